@@ -12,7 +12,8 @@ EXTENDS TraceBase, Poly
 VARIABLES l
 vars == <<l>>
 
-PolyOps == {"add", "sub", "mul", "neg", "scale", "derivative", "derivative_n", "trim"}
+\* "cube" (p*p)*p, "lin" (p+p)-p, "comm" p*q - q*p, "sumsq" p*p + q*q: chained expressions reusing one object
+PolyOps == {"add", "sub", "mul", "neg", "scale", "derivative", "derivative_n", "trim", "cube", "lin", "comm", "sumsq"}
 ValOps == {"eval", "derivative_at", "evalres"}
 
 \* is the call inside the domain the property speaks about?
@@ -28,6 +29,8 @@ IModel(e) == CASE e.op = "add" -> PAdd(e.p, e.q) [] e.op = "sub" -> PSub(e.p, e.
                [] e.op = "neg" -> PNeg(e.p) [] e.op = "scale" -> PScale(e.p, e.s)
                [] e.op = "derivative" -> PDeriv(e.p) [] e.op = "derivative_n" -> PDerivN(e.p, e.n)
                [] e.op = "trim" -> PTrim(e.p)
+               [] e.op = "cube" -> PMul(PMul(e.p, e.p), e.p) [] e.op = "lin" -> PSub(PAdd(e.p, e.p), e.p)
+               [] e.op = "comm" -> PSub(PMul(e.p, e.q), PMul(e.q, e.p)) [] e.op = "sumsq" -> PAdd(PMul(e.p, e.p), PMul(e.q, e.q))
 IValue(e) == CASE e.op = "eval" -> PEval(e.p, e.x)
                [] e.op = "derivative_at" -> PEval(PDerivN(e.p, e.n), e.x)
                \* value of the real code's result at x = the same combination of the operands' values
@@ -44,6 +47,9 @@ CModel(e) == CASE e.op = "add" -> CAdd(CPof(e), CQof(e)) [] e.op = "sub" -> CSub
                [] e.op = "neg" -> CNeg(CPof(e)) [] e.op = "scale" -> CScale(CPof(e), <<e.s, e.si>>)
                [] e.op = "derivative" -> CDeriv(CPof(e)) [] e.op = "derivative_n" -> CDerivN(CPof(e), e.n)
                [] e.op = "trim" -> CTrim(CPof(e))
+               [] e.op = "cube" -> CMul(CMul(CPof(e), CPof(e)), CPof(e)) [] e.op = "lin" -> CSub(CAdd(CPof(e), CPof(e)), CPof(e))
+               [] e.op = "comm" -> CSub(CMul(CPof(e), CQof(e)), CMul(CQof(e), CPof(e)))
+               [] e.op = "sumsq" -> CAdd(CMul(CPof(e), CPof(e)), CMul(CQof(e), CQof(e)))
 CValue(e) == LET x == <<e.x, e.xi>> IN
              CASE e.op = "eval" -> CEval(CPof(e), x)
                [] e.op = "derivative_at" -> CEval(CDerivN(CPof(e), e.n), x)
@@ -59,6 +65,8 @@ QModel(e) == CASE e.op = "add" -> QAdd(e.p, e.q) [] e.op = "sub" -> QSub(e.p, e.
                [] e.op = "neg" -> QNeg(e.p) [] e.op = "scale" -> QScale(e.p, e.s)
                [] e.op = "derivative" -> QDeriv(e.p) [] e.op = "derivative_n" -> QDerivN(e.p, e.n)
                [] e.op = "trim" -> QTrim(e.p)
+               [] e.op = "cube" -> QMul(QMul(e.p, e.p), e.p) [] e.op = "lin" -> QSub(QAdd(e.p, e.p), e.p)
+               [] e.op = "comm" -> QSub(QMul(e.p, e.q), QMul(e.q, e.p)) [] e.op = "sumsq" -> QAdd(QMul(e.p, e.p), QMul(e.q, e.q))
 QValue(e) == CASE e.op = "eval" -> QEval(e.p, e.x)
                [] e.op = "derivative_at" -> QEval(QDerivN(e.p, e.n), e.x)
                [] e.op = "evalres" -> (CASE e.sub = "add" -> RAdd(QEval(e.p, e.x), QEval(e.q, e.x))
